@@ -570,9 +570,12 @@ func c02exact(c *Ctx) {
 }
 
 // exactCmpPackage: shared by C01 (the request handed up is capped exactly) and C02.
-func exactCmpPackage(c *Ctx) {
+func exactCmpPackage(c *Ctx) { exactCmpIn(c, quotaCorePkg, "elasticquota/core", 10) }
+
+// exactCmpIn: the package-wide form of EXACT-CMP for any package that compares resource quantities.
+func exactCmpIn(c *Ctx, pkgRel, label string, floor int) {
 	r := c.R
-	r.Rule("EXACT-CMP(package): in package elasticquota/core no comparison has a Quantity.Value() reading on both sides (Value() rounds up to whole units, so two CPU amounts inside one core compare equal: a change-detection guard built on it drops sub-core request changes and the runtime keeps depending on history); quantities are compared by Cmp/Equal")
+	r.Rule("EXACT-CMP(package): in package "+label+" no comparison has a Quantity.Value() reading on both sides (Value() rounds up to whole units, so two CPU amounts inside one core compare equal: a change-detection guard built on it drops sub-core request changes and the runtime keeps depending on history); quantities are compared by Cmp/Equal")
 	isValue := func(v ssa.Value) bool {
 		cl, _ := an.ResultOfCall(firstSource(v))
 		if cl == nil {
@@ -585,7 +588,7 @@ func exactCmpPackage(c *Ctx) {
 		return false
 	}
 	nExact := 0
-	for _, fn := range c.PkgFuncs(quotaCorePkg) {
+	for _, fn := range c.PkgFuncs(pkgRel) {
 		n := 0
 		for _, b := range fn.Blocks {
 			for _, in := range b.Instrs {
@@ -607,7 +610,7 @@ func exactCmpPackage(c *Ctx) {
 			}
 		}
 	}
-	r.Floor("EXACT-CMP", "exact quantity comparisons seen in package core (the scan is alive)", nExact, 10)
+	r.Floor("EXACT-CMP", "exact quantity comparisons seen in package "+label+" (the scan is alive)", nExact, floor)
 }
 
 func c02exactRest(c *Ctx) {
